@@ -828,3 +828,44 @@ def rule_values_verbatim(rep: Report, repo: Repo, rule: str) -> None:
         rep.check(got is not None and got[0] == "sym", rule, f"{MOD}:Directive.__init__", f"self.arguments = {show(got) if got else None}",
                   "Directive does not keep its arguments as given")
     rep.floor(rule, 8, "value serialisation facts")
+
+
+def rule_file_is_rendered_text(rep: Report, repo: Repo, rule: str) -> None:
+    """What write_to_file puts into the file is the rendered document itself - str(self) - not a transformation of it: the file of
+    `-o` mode has the bytes that stdout mode prints (no Unicode normalisation, re-wrapping, stripping or re-encoding with a lossy
+    error handler on the way to the disk)."""
+    import ast
+    from ..core import AnalysisError
+    from ..model import call_name, norm, walk_no_nested
+    rep.rule(rule, "RSTWriter.write_to_file writes exactly str(self) (or to_text()) through every write call; open() has no lossy "
+                   "error handler and no newline translation argument")
+    r = repo.find_method("RSTWriter", "write_to_file")
+    if r is None:
+        raise AnalysisError("anchor vanished: RSTWriter.write_to_file")
+    fn = r[1]
+    where = "cminx.rstwriter:RSTWriter.write_to_file"
+    self_name = fn.args.args[0].arg
+    rendered = {f"str({self_name})", f"{self_name}.to_text()", f"{self_name}.__str__()"}
+    once = {}
+    for n in walk_no_nested(fn):
+        if isinstance(n, ast.Assign) and len(n.targets) == 1 and isinstance(n.targets[0], ast.Name):
+            once.setdefault(n.targets[0].id, []).append(n.value)
+    n_w = 0
+    for c in walk_no_nested(fn):
+        if isinstance(c, ast.Call) and isinstance(c.func, ast.Attribute) and c.func.attr in ("write", "writelines", "write_text"):
+            n_w += 1
+            arg = c.args[0] if c.args else None
+            while isinstance(arg, ast.Name) and len(once.get(arg.id, [])) == 1:
+                arg = once[arg.id][0]
+            ok = arg is not None and norm(arg) in rendered and c.func.attr != "writelines"
+            rep.check(ok, rule, where, norm(c)[:70],
+                      f"the file receives `{norm(arg)[:60] if arg is not None else None}`, not the rendered document: the page on disk "
+                      f"differs from the text of the doccomments (and from what stdout mode prints)",
+                      witness="doc text that is not in NFC / contains a long line, written with -o")
+        if isinstance(c, ast.Call) and call_name(c) in ("open", "io.open", "codecs.open"):
+            kws = {k.arg: k.value for k in c.keywords}
+            lossy = "errors" in kws and not (isinstance(kws["errors"], ast.Constant) and kws["errors"].value in ("strict", None))
+            rep.check(not lossy and "newline" not in kws, rule, where, norm(c)[:70],
+                      "the output file is opened with a lossy error handler or a newline translation: characters of the doc text are "
+                      "replaced or dropped on the way to the disk")
+    rep.floor(rule, 2, "write calls")
